@@ -283,7 +283,7 @@ func (n *c14Node) patterns(out map[string]bool) {
 
 // c14Spec is everything needed to rebuild one generated condition (also the replay format).
 type c14Spec struct {
-	Shape    string `json:"shape"` // plain | defined-and | defined-other-and | quoted | not-quoted | double-not | paren | not-paren | or-two | and-two | same-twice | and-three | and-wrong-occurrence
+	Shape    string `json:"shape"` // plain | defined-and | defined-other-and | quoted | not-quoted | double-not | paren | not-paren | or-two | and-two | same-twice | and-three | defined-mid-and | and-wrong-occurrence
 	Form     string `json:"form"`  // bare | not-bare | empty | not-empty
 	Pat      string `json:"pat"`   // hex in the replay file
 	Positive bool   `json:"positive"`
@@ -353,6 +353,9 @@ func c14Atom(v string, form string, mods []string) *c14Node {
 
 func (s c14Spec) mods(pat string) []string {
 	var ms []string
+	if s.Prefix == "-" {
+		return nil // no modifier at all: ${V}, empty(V) -- the n == 0 exits of the three simplifiers
+	}
 	if s.Prefix != "" {
 		ms = append(ms, s.Prefix)
 	}
@@ -391,6 +394,10 @@ func (s c14Spec) build() (cond string, tree *c14Node) {
 		tree = &c14Node{K: 'O', Kids: []*c14Node{atom, c14Atom(v, s.Form, s.mods(s.Pat))}}
 	case "and-three":
 		tree = &c14Node{K: 'A', Kids: []*c14Node{{K: 'D', Var: v}, atom, x1}}
+	case "defined-mid-and":
+		// defined(V) && ${V} != "zzz" && <atom>: the middle part is only evaluated when V is defined
+		mid := &c14Node{K: 'X', Text: "${" + v + "} != \"zzz\""}
+		tree = &c14Node{K: 'A', Kids: []*c14Node{{K: 'D', Var: v}, mid, atom}}
 	case "and-wrong-occurrence":
 		// !defined(V) && 1 || defined(V)  && <atom>   (two blanks in the second conjunction)
 		left := &c14Node{K: 'A', Kids: []*c14Node{{K: 'N', Kids: []*c14Node{{K: 'D', Var: v}}}, x1}}
@@ -418,6 +425,8 @@ var c14Patterns = []string{
 	"[yY][eE][sS]", "[Yy][Ee][Ss]", "[nN][oO]", "[Nn][Oo]", "[yY][eE][s]", "[yY]", "[yY][eE][sS]*", "[yY][Ee][sS]", "[yy][eE][sS]",
 	// nested references: bmake expands them before matching, mayMatchNumber sees the text
 	"${C14LV}", "${C14LV}*", "[${C14LV}]", "*${C14LV}", "al${C14LV}", "${C14LV}.${C14LW}", "${C14LV}[0-9]", "${C14LV}${C14LW}",
+	// patterns makepat.Compile rejects (mayMatchNumber's error exit), literals with a byte outside mkCondModifierPatternLiteral
+	"[a", "al[", "[0-", "a~b", "x%y",
 	// empty
 	"",
 }
@@ -1066,9 +1075,18 @@ func c14Exhaustive(thorough bool) []c14Spec {
 			}
 		}
 	}
+	// no modifier at all
+	for _, k := range c14Kinds {
+		for _, def := range []string{"D", "U"} {
+			for _, f := range forms {
+				add(c14Spec{"plain", f, "", true, "-", k.tag, def, true, 0, "", ""})
+				add(c14Spec{"defined-and", f, "", true, "-", k.tag, def, true, 0, "", ""})
+			}
+		}
+	}
 	// compound shapes
 	shapes := []string{"defined-and", "defined-other-and", "quoted", "not-quoted", "double-not", "paren", "not-paren",
-		"or-two", "and-two", "same-twice", "and-three", "and-wrong-occurrence"}
+		"or-two", "and-two", "same-twice", "and-three", "defined-mid-and", "and-wrong-occurrence"}
 	for _, sh := range shapes {
 		for _, tag := range []string{"EA", "ID", "YN", "LI", "UK"} {
 			for _, def := range []string{"D", "U"} {
